@@ -350,6 +350,8 @@ package stree
 //@   at after "root.right = extract(nodes[mid+1:])": assert [C01] forall y ref :: {inD(root.right, y)} inD(root.right, y) ==> 0 <= niR[y] && mid + 1 + niR[y] < len(nodes) && nodes[mid + 1 + niR[y]] == y
 //@   at after "root.right = extract(nodes[mid+1:])": assert [C01] forall k int :: {inK(root.right, k)} inK(root.right, k) ==> 0 <= kiR[k] && mid + 1 + kiR[k] < len(nodes) && rank(cmp, nodes[mid + 1 + kiR[k]].X) == k && k > rank(cmp, root.X)
 //@   at after "root.right = extract(nodes[mid+1:])": assert [C01] !inD(root.right, root) && (forall y ref :: {inD(root.left, y)} {inD(root.right, y)} !(inD(root.left, y) && inD(root.right, y)))
+//@   at after "root.left = extract(nodes[:mid])": assert [C01] forall y *node[T] :: {inD(root.left, y)} inD(root.left, y) ==> (y.left != nil ==> inD(root.left, y.left)) && (y.right != nil ==> inD(root.left, y.right))
+//@   at after "root.right = extract(nodes[mid+1:])": assert [C01] forall y *node[T] :: {inD(root.left, y)} inD(root.left, y) ==> !inD(root.right, y) && (y.left != nil ==> inD(root.left, y.left) && !inD(root.right, y.left)) && (y.right != nil ==> inD(root.left, y.right) && !inD(root.right, y.right))
 //@   at after "root.right = extract(nodes[mid+1:])": assert [C01] treeOK(root.left, cmp)
 //@   at after "root.right = extract(nodes[mid+1:])": ghost root.keys = lambda k int :: k == rank(cmp, root.X) || inK(root.left, k) || inK(root.right, k)
 //@   at after "root.right = extract(nodes[mid+1:])": ghost root.desc = lambda y int :: y == root || inD(root.left, y) || inD(root.right, y)
